@@ -505,19 +505,26 @@ func (s *state) walkUseNode(node *parse.UseNode) error {
 	if err != nil {
 		return err
 	}
-	blocks := tree.Blocks()
+	defined := tree.Blocks()
+	blocks := make(map[string]*parse.BlockNode, len(defined))
+	for name, v := range defined {
+		if _, ok := node.Aliases[name]; !ok {
+			blocks[name] = v
+		}
+	}
 	for orig, alias := range node.Aliases {
-		v, ok := blocks[orig]
+		v, ok := defined[orig]
 		if !ok {
 			return errors.New("Unable to locate block with name \"" + orig + "\"")
 		}
 		// The block is imported under its alias, and only under it: it is a
 		// block of that name now (for parent(), too), and it does not override
-		// a block that happens to have its original name.
+		// a block that happens to have its original name. Every alias names a
+		// block as the used template defines it, so "a as b, b as a" swaps the
+		// two and "a as a" changes nothing.
 		renamed := *v
 		renamed.Name = alias
 		blocks[alias] = &renamed
-		delete(blocks, orig)
 	}
 	l := len(s.blocks)
 	lb := s.blocks[l-1]
